@@ -74,6 +74,31 @@ class RecPlugin(Plugin):
                     return neg
                 del self.log[n_log:]
             return "?"
+        if isinstance(e, ast.BoolOp):
+            # truth of `a or b` / `a and b` where every part is decided
+            vals = []
+            for x in e.values:
+                if isinstance(x, (ast.Compare, ast.BoolOp)) or (
+                        isinstance(x, ast.UnaryOp) and
+                        isinstance(x.op, ast.Not)):
+                    vals.append(self.eval(x, d))
+                else:
+                    n_log = len(self.log)
+                    t, f = self.refine(x, dict(d))
+                    vals.append(True if t and not f else (
+                        False if f and not t else "?"))
+                    del self.log[n_log:]
+            if isinstance(e.op, ast.Or):
+                if any(v is True for v in vals):
+                    return True
+                if all(v is False for v in vals):
+                    return False
+            else:
+                if any(v is False for v in vals):
+                    return False
+                if all(v is True for v in vals):
+                    return True
+            return "?"
         if isinstance(e, ast.IfExp):
             t, f = self.refine(e.test, dict(d))
             if t and not f:
